@@ -23,6 +23,12 @@ import (
 //               into the end of the session
 //   ctxwait     session with claims whose handler does not range over Messages() but blocks on
 //               session.Context().Done() (legal: "return when the context is done")
+//   offsetfail  join and sync succeed with claims, then the initial OffsetFetch of the claims fails (mode 0: block
+//               error GroupAuthorizationFailed, 1: connection dropped): newConsumerGroupSession fails after the
+//               session object exists and must release it; Consume returns the error, is called again
+//   commitfail  running session whose handler marks messages, every OffsetCommit fails (mode 0: OffsetMetadataTooLarge,
+//               1: UnknownMemberId, 2: connection dropped): errors reach Errors() while the group is open, the offsets
+//               are still dirty when Close is called and the final commit of the release fails too
 //   nocoord     FindCoordinator answers ConsumerCoordinatorNotAvailable: Consume fails, is called again
 //   silentjoin  JoinGroup is never answered (read timeout)
 //   race        (needs the hook of hooks/c12_group_handleerror.patch; without it an ordinary run) the partition
@@ -117,11 +123,34 @@ func (s *grpScript) handler() func(string, interface{}) interface{} {
 		case "OffsetFetchRequest":
 			req := body.(*sarama.OffsetFetchRequest)
 			r := &sarama.OffsetFetchResponse{Version: req.Version}
+			if s.spec.Scen == "offsetfail" {
+				if s.spec.p("mode", 0) == 1 {
+					return sarama.VerifC12Drop{}
+				}
+				for p := 0; p < np; p++ {
+					r.AddBlock(topic, int32(p), &sarama.OffsetFetchResponseBlock{Offset: -1, Err: sarama.ErrGroupAuthorizationFailed})
+				}
+				return r
+			}
 			for p := 0; p < np; p++ {
 				r.AddBlock(topic, int32(p), &sarama.OffsetFetchResponseBlock{Offset: -1})
 			}
 			return r
 		case "OffsetCommitRequest":
+			if s.spec.Scen == "commitfail" {
+				kerr := sarama.ErrOffsetMetadataTooLarge
+				switch s.spec.p("mode", 0) {
+				case 1:
+					kerr = sarama.ErrUnknownMemberId
+				case 2:
+					return sarama.VerifC12Drop{}
+				}
+				m := sarama.NewMockOffsetCommitResponse(quietT{s.rc})
+				for p := 0; p < np; p++ {
+					m.SetError(groupID, topic, int32(p), kerr)
+				}
+				return m
+			}
 			return sarama.NewMockOffsetCommitResponse(quietT{s.rc})
 		case "OffsetRequest":
 			m := sarama.NewMockOffsetResponse(quietT{s.rc}).SetVersion(1)
